@@ -49,6 +49,18 @@ Theorem C22_current_wp_storage_independent : forall depth warn l, forallb safe_f
     whole_program depth warn (map (fun s => load gen_names (store gen_names s)) l) = whole_program depth warn l.
 Proof. exact current_wp_storage_independent. Qed.
 
+(* --- a file analysed under several preprocessor configurations: one block per configuration and check is stored,
+   every block comes back, and the findings are those of all configurations together *)
+Theorem C22_ctu_blocks_roundtrip : forall nm cs, nm_ok nm -> forallb safe_ctu cs = true ->
+    load_ctu_blocks nm (map (ctu_to_xml nm) cs) = ctu_merge cs.
+Proof. exact ctu_blocks_roundtrip. Qed.
+
+Theorem C22_current_wp_storage_independent_multicfg : forall depth warn (files : list (list fsum)),
+    forallb (forallb safe_fsum) files = true ->
+    whole_program depth warn (concat (map (fun cfgs => load_file gen_names (store_file gen_names cfgs)) files))
+    = whole_program depth warn (concat files).
+Proof. exact current_wp_storage_independent_multicfg. Qed.
+
 (* --- ids / argument names are written through toxml (fix cf4f724): for EVERY byte string the attribute is well
    formed, and on the lossless domain (double quote and ampersand included) it is read back unchanged *)
 Theorem C22_current_ids_escaped : ids_escb gen_names = true.
@@ -104,6 +116,8 @@ Print Assumptions C22_wp_storage_independent.
 Print Assumptions C22_current_names_ok.
 Print Assumptions C22_current_ctu_roundtrip.
 Print Assumptions C22_current_wp_storage_independent.
+Print Assumptions C22_ctu_blocks_roundtrip.
+Print Assumptions C22_current_wp_storage_independent_multicfg.
 Print Assumptions C22_current_ids_escaped.
 Print Assumptions C22_current_id_wellformed.
 Print Assumptions C22_current_id_roundtrip.
@@ -135,6 +149,8 @@ Qed.
 Example old_id_not_wellformed : raw_ok (wr (e_callid names_unfixed) [104;34;120;46;104]) = false.
 Proof. reflexivity. Qed.
 Example safe_str_with_quote : safe_str [104;34;120;46;104;38] = true.
+Proof. reflexivity. Qed.
+Example multicfg_inhabited : forallb (forallb safe_fsum) [w_files; w_files] = true.
 Proof. reflexivity. Qed.
 Example permutation_inhabited : Permutation w_files (rev w_files).
 Proof. apply Permutation_rev. Qed.
